@@ -579,13 +579,15 @@ func TestVerif_C10(t *testing.T) {
 		}
 		return withTLS(verifNewRequest("POST", refreshRoleRequestingCertPath, f), ipChain, "10.9.9.9:1234")
 	})
+	// (j) byte-level framing of every key upload (marks, NULs, odd / even cuts, UTF-16 transcodings)
+	frameCases, frameIdx := c10FramingStage(env, res, corpus, request)
 	// (f) the SSH key file as the validator and as the signer read it
 	fileCases, fileIdx := c10FileStage(t, env, res, corpus, userCookie)
 	// (e) signed tokens of every kind, claim-dropped / type-confused / corrupted, at every token sink
 	claimCases, claimIdx := c10TokenStage(t, env, res, rng)
 	var sb strings.Builder
 	sb.WriteString(coqCaseHeader)
-	sb.WriteString("From KM Require Import Base.Cases Model.KeyStrength Model.ClaimAccess Model.PemWalk.\nOpen Scope N_scope.\n")
+	sb.WriteString("From KM Require Import Base.Cases Model.KeyStrength Model.ClaimAccess Model.PemWalk Model.KeyFraming.\nOpen Scope N_scope.\n")
 	sb.WriteString("Definition pred_cases : list (N * N * N * bool) := [\n " + strings.Join(predCases, ";\n ") + "].\n")
 	sb.WriteString("Definition c10_pred_mismatches := Eval vm_compute in mismatches c10_bad pred_cases.\nPrint c10_pred_mismatches.\n")
 	sb.WriteString("(* issuing paths: class 0 = certificate issued, 1 = client error, 2 = server error/other *)\n")
@@ -611,7 +613,11 @@ func TestVerif_C10(t *testing.T) {
 	sb.WriteString("Definition param_cases : list param_case := [\n " + strings.Join(paramCases, ";\n ") + "].\n")
 	sb.WriteString("Definition c10_param_mismatches := Eval vm_compute in mismatches c10_param_bad param_cases.\nPrint c10_param_mismatches.\n")
 	sb.WriteString("Definition c10_param_violating := Eval vm_compute in mismatches (fun c => c10_param_bad c && c10_param_violates c) param_cases.\nPrint c10_param_violating.\n")
-	sb.WriteString("Definition c10_ncases := Eval vm_compute in (length pred_cases + length pipe_cases + length file_cases + length claim_cases + length cfg_cases + length pem_cases + length param_cases)%nat.\nPrint c10_ncases.\n")
+	sb.WriteString("(* framed uploads: (path, observed normalisations of the path (strip UTF-8 mark, UTF-16LE, UTF-16BE), uploaded bytes, what the real parser makes of the normalised text, class, panicked) *)\n")
+	sb.WriteString("Definition framing_cases : list framing_case := [\n " + strings.Join(frameCases, ";\n ") + "].\n")
+	sb.WriteString("Definition c10_framing_mismatches := Eval vm_compute in mismatches c10_framing_bad framing_cases.\nPrint c10_framing_mismatches.\n")
+	sb.WriteString("Definition c10_framing_violating := Eval vm_compute in mismatches (fun c => c10_framing_bad c && c10_framing_violates c) framing_cases.\nPrint c10_framing_violating.\n")
+	sb.WriteString("Definition c10_ncases := Eval vm_compute in (length pred_cases + length pipe_cases + length file_cases + length claim_cases + length cfg_cases + length pem_cases + length param_cases + length framing_cases)%nat.\nPrint c10_ncases.\n")
 	if err := ioutil.WriteFile(filepath.Join(verifOut(), "CasesC10.v"), []byte(sb.String()), 0644); err != nil {
 		t.Fatal(err)
 	}
@@ -621,6 +627,7 @@ func TestVerif_C10(t *testing.T) {
 	ioutil.WriteFile(filepath.Join(verifOut(), "CasesC10G.idx"), []byte(strings.Join(cfgIdx, "\n")), 0644)
 	ioutil.WriteFile(filepath.Join(verifOut(), "CasesC10P.idx"), []byte(strings.Join(pemIdx, "\n")), 0644)
 	ioutil.WriteFile(filepath.Join(verifOut(), "CasesC10R.idx"), []byte(strings.Join(paramIdx, "\n")), 0644)
+	ioutil.WriteFile(filepath.Join(verifOut(), "CasesC10X.idx"), []byte(strings.Join(frameIdx, "\n")), 0644)
 	res.sample(map[string]interface{}{"path": "role", "key": "rsa-2047-e65537", "expected": "client error"})
 	res.sample(pipeIdx[0])
 	res.sample(pipeIdx[len(pipeIdx)/2])
